@@ -494,7 +494,7 @@ def make_spec(rng, bits, kinds=None):
 
 
 def shift_pool(L):
-    return sorted({-1, 0, 1, 7, 8, 9, L - 1, L, L + 1, 10 ** 6, 2 ** 31, 2 ** 63 - 1, 2 ** 63, 2 ** 64, 10 ** 20})
+    return sorted({-1, 0, 1, 7, 8, 9, L - 1, L, L + 1, 10 ** 6, 2 ** 31, 2 ** 63 - 1, 2 ** 63, 2 ** 64, 10 ** 20}) + [True, False]   # a bool is an int
 
 
 def related(rng, a):
